@@ -70,11 +70,11 @@ def k_dec_specs():
     S = []
     for g in ('g1', 'g2'):
         for k in ('raw', 'uncompressed', 'compressed'):
-            S.append(K('dec::k_dec_%s_%s' % (g, k), '%s %s decoder on EVERY string of the exact length: no panic; Ok => exact prefix and every coordinate < q; re-encoding gives back the input; Err only if malformed or sqrt/validated-constructor refused; every accepted point went through AffineG::new' % (g.upper(), k),
+            S.append(K('dec::k_dec_%s_%s' % (g, k), '%s %s decoder on EVERY string of the exact length: no panic; Ok => exact prefix and every coordinate < q; Err only if malformed or sqrt/validated-constructor refused; every accepted point went through AffineG::new' % (g.upper(), k),
                        ['sm9_core::%s::from_%s' % (g.upper(), {'raw': 'slice', 'uncompressed': 'uncompressed', 'compressed': 'compressed'}[k]), 'to_slice/to_uncompressed/to_compressed', 'Fq::from_slice', 'Fq2::from_slice'],
                        'all byte strings of the exact format length (arbitrary prefix and coordinates)', [MODEL, 'Fq::sqrt / Fq2::sqrt replaced by "None, or Some(arbitrary canonical value)"; AffineG::new replaced by "Err, or Ok carrying exactly the given coordinates (y != 0)" - their own behaviour is decided by engine A']))
             S.append(K('dec::k_declen_%s_%s' % (g, k), '%s %s decoder returns Err (no panic) for every other length 0..=140' % (g.upper(), k), ['decoder length checks'],
-                       'all strings of every length 0..=140 except the format length (length symbolic)', [MODEL]))
+                       'all strings of every length 0..=140 except the format length (each length, arbitrary content)', [MODEL]))
     S.append(K('dec::k_enc_g1', 'G1 encoders: raw = x||y big-endian; 0x04 prefix; compressed prefix 0x02/0x03 = parity of canonical y', ['G1::to_slice/to_uncompressed/to_compressed'], 'all canonical coordinate pairs (z = 1)', [MODEL]))
     S.append(K('dec::k_enc_g2', 'G2 encoders: imaginary before real, x before y; compressed prefix = parity of the real part of y', ['G2::to_slice/to_uncompressed/to_compressed', 'Fq2::to_slice'], 'all canonical coordinates (z = 1)', [MODEL]))
     return S
@@ -90,15 +90,47 @@ def run_c06(tier):
     return obls
 
 
+def sel(specs, names):
+    return [s for s in specs if any(s['harness'].split('::')[-1].startswith(n) for n in names)]
+
+
 def run_c13(tier):
-    return kani.decide('C13', k_conv_specs(), tier, pool=8)
+    S = k_conv_specs()
+    if tier == 'thorough':
+        S.append(K('conv::k_conv_from_str3_fr', 'Fr::from_str on all valid UTF-8 strings of <= 3 bytes', ['Fr::from_str'], '<= 3 bytes', [MODEL]))
+    return kani.decide('C13', S, tier, pool=8)
 
 
 def run_c08(tier):
-    return kani.decide('C08', k_dec_specs(), tier, timeout_s=2400, pool=6)
+    S = k_dec_specs()
+    S = [s for s in S if 'k_enc_' not in s['harness']]
+    return kani.decide('C08', S, tier, timeout_s=1500 if tier == 'quick' else 3600, pool=6)
+
+
+def run_c07(tier):
+    S = sel(k_lin_specs(), ['k_lin_']) + sel(k_conv_specs(), ['k_conv_from_slice', 'k_conv_interpret', 'k_conv_from_hash', 'k_conv_from_str', 'k_random', 'k_setbit_fr', 'k_cmp_eq', 'k_conv_fq2_from_slice', 'k_conv_roundtrip'])
+    return kani.decide('C07', S, tier, pool=8)
+
+
+def run_c10(tier):
+    S = sel(k_dec_specs(), ['k_enc_'])
+    return kani.decide('C10', S, tier, timeout_s=1500 if tier == 'quick' else 3600, pool=6)
+
+
+def run_c11(tier):
+    return kani.decide('C11', k_gt_specs(), tier, pool=4)
+
+
+def run_c18(tier):
+    S = k_lin_specs() + sel(k_conv_specs(), ['k_bytes', 'k_conv_to_big_endian', 'k_setbit', 'k_conv_fq2_from_slice']) + sel(k_dec_specs(), ['k_dec_', 'k_declen_'])
+    return kani.decide('C18', S, tier, timeout_s=1500 if tier == 'quick' else 3600, pool=6)
 
 
 PROPS = {
+    'C07': dict(run=run_c07, level='proof', trusted_base=KTRUST, not_covered=['termination of U256::invert', 'canonicity of mul/square/sum_of_products results (engine L, pending integration)'], explanation=''),
+    'C10': dict(run=run_c10, level='proof', trusted_base=KTRUST, not_covered=['independence of the representative for z != 1 (engine A, pending integration)'], explanation=''),
+    'C11': dict(run=run_c11, level='proof', trusted_base=KTRUST, not_covered=['Gt algebra (engine A, pending integration)', 'exponent laws needing g^r = 1'], explanation=''),
+    'C18': dict(run=run_c18, level='proof', trusted_base=KTRUST, not_covered=['release-profile side of the kernels (engine L, pending integration)', 'u512.rs self-checks'], explanation='every K harness is decided with debug assertions and overflow checks modelled (dev profile); a reachable debug_assert / overflow is a verification failure'),
     'C13': dict(run=run_c13, level='proof', trusted_base=KTRUST, not_covered=['from_str beyond 3-byte strings (same Horner step repeated)'], explanation=''),
     'C08': dict(run=run_c08, level='proof', trusted_base=KTRUST, not_covered=['completeness for G2 needs Fq2::sqrt completeness (C14) and the subgroup theorem'], explanation=''),
     'C06': dict(run=run_c06, level='proof', trusted_base=KTRUST,
